@@ -21,7 +21,7 @@ Next ==
      ELSE IF e.e = "sink.begin" THEN
         \* directed "stopgrace": a sink stays blocked beyond the grace period and is abandoned by Stop; what the abandoned
         \* goroutine does once the sink is released is not judged (only: Stop returned within its grace period, no deadlock)
-        /\ IF stopReturned /\ cfg.directed # "stopgrace" THEN Reject("sink_invoked_after_stop_returned") ELSE UNCHANGED dead
+        /\ IF stopReturned /\ cfg.directed \notin {"stopgrace", "stopgrace2"} THEN Reject("sink_invoked_after_stop_returned") ELSE UNCHANGED dead
         /\ flushSeen' = (flushSeen \/ (stopCalled /\ ~stopReturned))
         /\ UNCHANGED <<cfg, stopCalled, stopReturned>>
      ELSE IF e.e = "stop.call" THEN stopCalled' = TRUE /\ UNCHANGED <<cfg, stopReturned, flushSeen, dead>>
@@ -39,6 +39,10 @@ Next ==
         /\ UNCHANGED <<cfg, stopCalled, stopReturned, flushSeen>>
      ELSE IF e.e = "panic" THEN Reject("api_call_panicked") /\ UNCHANGED <<cfg, stopCalled, stopReturned, flushSeen>>
      ELSE IF e.e = "deadlock" THEN Reject("deadlock_or_call_never_returned") /\ UNCHANGED <<cfg, stopCalled, stopReturned, flushSeen>>
+     \* Stop of a second instance right after its Execute (directed "stopatonce")
+     ELSE IF e.e = "quickstop" THEN
+        /\ IF e.ms > 6000 THEN Reject("stop_exceeded_its_grace_period") ELSE UNCHANGED dead
+        /\ UNCHANGED <<cfg, stopCalled, stopReturned, flushSeen>>
      ELSE IF e.e = "settled" THEN
         /\ IF e.after > e.before THEN Reject("engine_goroutine_still_running_after_stop") ELSE UNCHANGED dead
         /\ UNCHANGED <<cfg, stopCalled, stopReturned, flushSeen>>
